@@ -50,7 +50,7 @@ def replay(case, inputs, cand=None):
 
 
 def validate(E, seed, tier):
-    return F.validate_cases(E, cases("quick", seed), seed, 60 if tier == "quick" else 200)
+    return F.validate_cases(E, [c for c in cases("quick", seed) if not c.get("via")], seed, 60 if tier == "quick" else 200)
 
 
 META = {
